@@ -11,8 +11,8 @@ V=$(cd "$(dirname "$0")/.." && pwd)
 J=${JOBS:-6}
 T=$(mktemp -d /tmp/rl-seedreg.XXXXXX)
 trap 'for w in "$T"/w*; do git -C /repo worktree remove --force "$w" >/dev/null 2>&1; done; rm -rf "$T"; git -C /repo worktree prune' EXIT
-"$V/check" C01 >/dev/null 2>&1 || true     # make sure bin/rlcheck is current
-BIN="$V/bin/rlcheck"
+# RLBIN=<binary>: use a development build instead of bin/rlcheck
+if [ -n "${RLBIN:-}" ]; then BIN=$RLBIN; else "$V/check" C01 >/dev/null 2>&1 || true; BIN="$V/bin/rlcheck"; fi
 fired() { # <worktree> <verifdir> <ids...>
   local w=$1 s=$2; shift 2
   for id in "$@"; do
